@@ -467,6 +467,12 @@ pub fn spec_of_table(rng: &mut Rng, t: &Table) -> Spec {
 }
 
 pub fn gen_wellformed(rng: &mut Rng, thorough: bool) -> Spec {
+    if rng.chance(1, 30) {
+        // any number of labels per state between 9 and 330 (not only the counts next to powers of two)
+        let ns = 2 + rng.below(3) as u32;
+        let k = 9 + rng.below(322) as u32;
+        return many_successors_spec(ns, k);
+    }
     if rng.chance(2, 5) {
         let t = structured_table(rng, thorough);
         spec_of_table(rng, &t)
